@@ -175,6 +175,12 @@ def mk_spm_vocab(rng, name, style):
             values.append(t.encode())
             types.append(rng.choice([1, 1, 1, 4]))
             scores.append(-rng.randint(0, 12))
+    if style == "normal-first":
+        # tokens of the byte-token SHAPE that are not byte tokens: Decode parses them with strconv.ParseUint(.., 0, 8)
+        for t in (b"<0xZZ>", b"<0x_F>", b"<0xF_>", b"<0x1g>", b"<0xab>", b"<0x\xe2\x96\x81\xe2\x96\x81>"):
+            values.append(t)
+            types.append(1)
+            scores.append(-3)
     values.append(b"<start_of_turn>")
     types.append(3)
     scores.append(0)
@@ -240,8 +246,12 @@ WORDS = ["hello", "world", "the", "quick", "brown", "fox", "it's", "I'LL", "don'
          "é", "ạ̈", "\U0001F600", "\U0001F468‍\U0001F469‍\U0001F467", "\U0001F1E9\U0001F1EA", " ", " ", "​", "﻿",
          "~", "~~", "~/x", "a~b", "\x7f", "\x01", "\x1f", "\u0080", "\u009f", "­", "¬", "®", "¡", "ÿ", "Ā", "Ġ", "Ń", "Ċ",
          "!", "?!", "...", "--", "(x)", "{[]}", "#$%", "^&*", "`", "|", "\\", "/", "<", ">", "<|", "|>", "_", "=", "+", ";", ":", "\"", "'", "@",
-         SEP, SEP + "a", "a" + SEP + "b", "<0x41>", "<0x0A>", "<0xe2>", "<0x4", "�", "\U0010FFFF", "퟿", "", "߿", "ࠀ", "￿", "\U00010000"]
+         SEP, SEP + "a", "a" + SEP + "b", "<0x41>", "<0x0A>", "<0xe2>", "<0x4", "<0xZZ>", "<0x_F>", "x<0xab>", "<0x  >", "�", "\U0010FFFF", "퟿", "", "߿", "ࠀ", "￿", "\U00010000"]
 WS = [" ", " ", " ", "  ", "   ", "\t", "\n", "\n\n", " \n", "\r\n", " \t ", " ", "\x0b", "\x0c", "\x1c"]
+
+
+REPEATS = ["aaaa", "aaaaaaaaa", "abababab", "aabbaabb", "      ", " a a a a", "\n\n\n\n\n", "........", "1111111", "12345678901", "ééééé",
+           "a" * 23, "ab" * 11, "   a   b   ", "''''", "~~~~~", "a~a~a~", "\x7f\x7f\x7f"]
 
 
 def rnd_text(rng, alpha=None, maxw=6):
@@ -309,6 +319,27 @@ def gen(ctx):
             add(v, t, "byte-coverage")
         for w in WORDS:
             add(v, w, "single-word")
+        for rep in REPEATS:
+            add(v, rep, "repeats")
+        # exhaustive small scope: every string up to a length over a few symbols (all merge orders of short inputs)
+        import itertools
+        syms, maxl = (("a", "b", " "), 3) if q else (("a", "b", " ", "~"), 5 if not v.sparse else 4)
+        for L in range(1, maxl + 1):
+            for tup in itertools.product(syms, repeat=L):
+                add(v, "".join(tup), "exhaustive-short")
+        nv = len(v.values)
+        for k in range(per // 2):
+            ids = [rng.randrange(0, nv) for _ in range(rng.randint(1, 6))]
+            if v.kind == "spm" and rng.random() < 0.5:
+                ids[rng.randrange(len(ids))] = rng.randrange(max(0, nv - 12), nv)  # the tail holds the odd tokens
+            if rng.random() < 0.06:
+                ids[rng.randrange(len(ids))] = rng.choice([-1, nv, nv + 5, -7])
+            cases.append({"op": "dec", "vocab": v.name, "ids": ids, "klass": "decode-only", "group": None, "add_special": False, "text": ""})
+        for k in range(per // 6):
+            # runs of one or two symbols: many equal-rank / equal-score pairs, the heap's pop order decides the pieces
+            a1 = rng.choice(alpha or list("abcdeilnost 1.\n"))
+            a2 = rng.choice(alpha or list("abcdeilnost 1.\n"))
+            add(v, "".join(rng.choice([a1, a1, a2]) for _ in range(rng.randint(3, 14))), "repeats")
         for k in range(per):
             r = rng.random()
             if r < 0.45 and alpha is not None:
@@ -332,7 +363,7 @@ def gen(ctx):
 
 # ------------------------------------------------------------------ monitor
 
-BYTE_LIT = re.compile(rb"<0x[0-9A-Fa-f_]{2}>")
+BYTE_LIT = re.compile(rb"(?=(<0x(?:[^\xe2]|\xe2\x96\x81){2}>))", re.S)
 
 
 def is_valid_utf8(b):
@@ -359,8 +390,8 @@ def classify(v, tb):
     if v.kind == "spm":
         if SEP.encode() in tb:
             return "u2581-in-text"
-        for m in BYTE_LIT.finditer(tb):
-            if m.group(0) in v.enc:
+        for m in BYTE_LIT.finditer(tb.replace(b" ", SEP.encode())):
+            if m.group(1) in v.enc:
                 return "byte-token-literal"
         return "other"
     for sp in v.specials:
@@ -457,7 +488,20 @@ def render(v, c, o):
     return "chk_spm %s %s %s %s %d%%N %s" % (v.name, cq_bytes(text), cq_bool(c["add_special"]), cq_ids(ids), code, cq_bytes(bytes.fromhex(o.get("dec", ""))))
 
 
+def render_dec(v, c, o):
+    ids = c["ids"]
+    dec = bytes.fromhex(o.get("dec", ""))
+    if v.kind == "bpe":
+        vt = sparse_vocab_term(v, [], ids)[0] if v.sparse else v.name
+        return "chk_bpe_dec %s %s %s %s" % (vt, cq_ids(ids), cq_bool("dec" in o), cq_bytes(dec))
+    code = 0 if "dec" in o else (1 if "dec_err" in o else 2)
+    return "chk_spm_dec %s %s %d%%N %s" % (v.name, cq_ids(ids), code, cq_bytes(dec))
+
+
 def model_term(v, c, o):
+    if c["op"] == "dec":
+        vt = (sparse_vocab_term(v, [], c["ids"])[0] if v.sparse else v.name)
+        return ("bpe_decode %s %s" if v.kind == "bpe" else "spm_decode %s %s") % (vt, cq_ids(c["ids"]))
     text = bytes.fromhex(c["text"])
     if v.kind == "bpe":
         tbl = list(zip(c["frags"], o.get("splits", [])))
@@ -470,14 +514,45 @@ def model_term(v, c, o):
     return "let ids := spm_encode %s %s %s in (ids, spm_decode %s ids)" % (v.name, cq_bytes(text), cq_bool(c["add_special"]), v.name)
 
 
+def validate_sparse(ctx, binp, vocabs, cases, obs):
+    """the per-case restriction of the llama vocabulary handed to the Coq model is python's view of encoder.json /
+    vocab.bpe: check it against what the real Vocabulary.Encode / Merge answer for the same strings"""
+    for v in vocabs:
+        if not v.sparse:
+            continue
+        strings, pairs = {}, {}
+        for c, o in zip(cases, obs):
+            if c["vocab"] != v.name or "ids" not in o:
+                continue
+            pieces = [bytes.fromhex(p) for ps in o.get("splits", []) for p in ps]
+            _, ents, mrg = sparse_vocab_term(v, pieces, o["ids"])
+            strings.update(ents)
+            pairs.update(mrg)
+            for p in pieces[:3]:
+                strings.setdefault(mapped(p).encode() + b"\xef\xbf\xbe", -1)  # a string that is not a token
+            if len(strings) > 6000:
+                break
+        sl = sorted(strings)
+        pl = sorted(pairs)
+        q = {"op": "vlookup", "vocab": v.name, "strings": [x.hex() for x in sl], "pairs": [y.hex() for ab in pl for y in ab]}
+        out, err = ctx.run_jsonl(binp, [v.setup_line(), q], args=[vlib.REPO])
+        ok = bool(out) and len(out) == 2 and out[1].get("ids") == [strings[x] for x in sl] and out[1].get("ranks") == [pairs[x] for x in pl]
+        ctx.obligation("sparse llama tables agree with the real Vocabulary.Encode/Merge on %d strings and %d pairs" % (len(sl), len(pl)), ok, str(err))
+        if not ok:
+            ctx.mismatch("python view of the llama 3.2 vocabulary differs from model.Vocabulary (Encode/Merge lookups)", {"strings": len(sl), "pairs": len(pl)},
+                         {"got": str(out)[:500]}, None)
+
+
 # ------------------------------------------------------------------ run
 
 def run(ctx, only=None):
-    ctx.rule = ("cases: for each of 4 synthetic byte-complete/incomplete BPE vocabularies, 3 synthetic SentencePiece vocabularies (fresh per seed) and the "
-                "llama 3.2 test vocabulary: texts covering every byte value of valid UTF-8, ~110 fixed words (scripts, whitespace, digits, punctuation incl. "
-                "~ and DEL, C1 controls, combining marks, emoji, U+2581, byte-token literals), random texts over a small alphabet (many merges) and over the "
-                "word list, and texts with a planted special-token literal; non-trivial = more than one token or a merge/fallback happened (ids differ from "
-                "one-per-byte); distinct = by (vocabulary, text, add_special)")
+    ctx.rule = ("cases: for each synthetic BPE vocabulary (4 quick / 7 thorough, fresh per seed), each synthetic SentencePiece vocabulary (3 / 5) and the "
+                "llama 3.2 test vocabulary: corpus of past minimal failures; texts covering every byte value of valid UTF-8; ~115 fixed words (scripts, "
+                "whitespace, digits, punctuation incl. ~ and DEL, C1 controls, combining marks, emoji, U+2581, byte-token literals); runs of one/two symbols "
+                "(equal ranks/scores); every string up to length 3 (thorough 5) over {a,b,space(,~)}; random texts over a small alphabet (many merges) "
+                "and over the word list; texts with a planted special-token literal (+ its two parts alone); decode-only id lists (incl. out-of-range ids); "
+                "non-trivial = more than one token and not one token per byte (a merge or a multi-byte piece happened), or a non-empty decode for decode-only; "
+                "distinct = by (vocabulary, text, add_special) / (vocabulary, ids)")
     ctx.trusted = ["Coq 8.16.1 kernel + vm_compute", "hand-written model coq/Tok/*.v tied to model/process_text.go and model/process_text_spm.go by this differential run only",
                    "regexp2 pre-tokeniser: an oracle of the model; its answers are observed through the add-only export VerifSplit and checked to be partitions",
                    "Go runtime string<->[]rune conversions, strings.Index/ReplaceAll, strconv.ParseUint, container/heap and gods binaryheap as modelled in Tok/Utf8.v, Tok/Heap.v",
@@ -506,6 +581,7 @@ def run(ctx, only=None):
     for v, so in zip(vocabs, sobs):
         if "specials" not in so or [bytes.fromhex(x) for x in so["specials"]] != v.specials:
             ctx.mismatch("Tok/Vocab.specials_from: SpecialVocabulary() differs", {"vocab": v.name}, so, [s.hex() for s in v.specials])
+    validate_sparse(ctx, binp, vocabs, cases, obs)
     header = HEADER0 + "".join(v.coq_def() for v in vocabs if not v.sparse)
     items, meta = [], []
     part_bad = 0
@@ -517,6 +593,15 @@ def run(ctx, only=None):
         if "harness_error" in o:
             ctx.obligation("harness c20 case", False, str(o))
             ctx.proof_failures.append({"obligation": "harness error", "detail": str(o)})
+            continue
+        if c["op"] == "dec":
+            inr = all(0 <= i < len(v.values) for i in c["ids"])
+            ctx.note_case({"v": v.name, "ids": c["ids"]}, inr and "dec" in o and len(o["dec"]) > 0, v.kind + ":decode-only",
+                          sample={"case": {"vocab": v.name, "ids": c["ids"]}, "impl": o})
+            if "panic" in o and inr:
+                ctx.violation({"family": v.kind, "class": "decode-panic"}, "Decode(%s) panicked on ids inside the vocabulary: %s" % (c["ids"], o["panic"]), {"case": c, "impl": o})
+            items.append(render_dec(v, c, o))
+            meta.append((v, c, o))
             continue
         ids = o.get("ids", [])
         nontriv = len(ids) > 1 and len(ids) != len(tb)
@@ -606,18 +691,45 @@ def run(ctx, only=None):
     ctx.obligation("correspondence: model = implementation on %d cases" % len(items), not bad)
     for i in bad[:20]:
         v, c, o = meta[i]
-        ctx.mismatch("Tok/Corr.%s" % ("chk_bpe" if v.kind == "bpe" else "chk_spm"), {k: c[k] for k in ("vocab", "text", "add_special", "klass")},
+        ctx.mismatch("Tok/Corr.%s" % (("chk_bpe" if v.kind == "bpe" else "chk_spm") + ("_dec" if c["op"] == "dec" else "")),
+                     {k: c[k] for k in ("vocab", "text", "add_special", "klass", "ids") if k in c},
                      {k: o[k] for k in o}, ctx.coq_print(header, model_term(v, c, o)) if len(ctx.mismatches) < 3 else None)
     if ctx.tier == "thorough":
         ctx.coqchk(["V.Tok.Properties_C20"])
 
 
 def replay(ctx, path):
+    """re-run the shrunk case of a replay file (violation: the minimal text with its vocabulary; correspondence break: the
+    disagreeing cases) on both sides, then the whole check"""
     r = json.load(open(path))
     ctx.log("replaying", path)
-    rep = r.get("replay", {})
-    fc = rep.get("from_case") or (r.get("disagreements", [{}])[0].get("case") if r.get("disagreements") else None)
-    run(ctx)
+    rep = r.get("replay") or {}
+    texts = []
+    if rep.get("minimal_text_hex") is not None:
+        texts.append((rep.get("from_case", {}).get("vocab"), rep["minimal_text_hex"]))
+    if rep.get("case") and isinstance(rep["case"], dict) and "text" in rep["case"]:
+        texts.append((rep["case"].get("vocab"), rep["case"]["text"]))
+    for d in r.get("disagreements", []):
+        if isinstance(d.get("case"), dict) and "text" in d["case"]:
+            texts.append((d["case"].get("vocab"), d["case"]["text"]))
+
+    def only(vocabs):
+        out = []
+        for vn, th in texts:
+            for v in vocabs:
+                if vn in (None, v.name):
+                    b = bytes.fromhex(th)
+                    frs = [f for f, fid in py_fragments(v, b) if fid is None] if v.kind == "bpe" else []
+                    out.append({"op": "enc", "vocab": v.name, "text": th, "frags": sorted(set(f.hex() for f in frs)), "add_special": False,
+                                "klass": "replay", "group": None})
+        return out
+    if texts:
+        seed = r.get("seed")
+        if seed is not None and seed != ctx.seed:
+            ctx.log("note: replay was recorded with VERIF_SEED=%s (synthetic vocabularies depend on the seed)" % seed)
+        run(ctx, only=only)
+    else:
+        run(ctx)
 
 
 MANIFEST = {
